@@ -273,6 +273,17 @@ func (s *Sim) checkC10(ctx *StepCtx, ureps []*URep) {
 		return
 	}
 	m := s.model
+	// a report that is dropped is dropped: no Session Report Request announcing usage
+	// reports without carrying one
+	for _, u := range ctx.newUps {
+		rt, ok := u.Msg.find(ieReportType)
+		if ok && len(rt.V) >= 1 && rt.V[0]&2 != 0 {
+			if _, has := u.Msg.find(ieUsageReportSRR); !has {
+				s.violate("C10", "report.dropped-silently", "report:empty-request",
+					"Session Report Request seq=%d to %s has Report Type USAR but carries no Usage Report IE (% x)", u.Seq, u.Dst, u.B)
+			}
+		}
+	}
 	endedHere := map[uint64]*MSess{}
 	for _, e := range ctx.Ended {
 		endedHere[e.UP] = e
@@ -283,6 +294,7 @@ func (s *Sim) checkC10(ctx *StepCtx, ureps []*URep) {
 		flag uint32
 		via  string
 		hit  bool
+		opt  bool // produced asynchronously in the step that ended its session: served before or after the end
 	}
 	var exps []*exp
 	for _, k := range ctx.KReps {
@@ -290,9 +302,13 @@ func (s *Sim) checkC10(ctx *StepCtx, ureps []*URep) {
 			continue
 		}
 		x := m.sess[k.SEID]
+		opt := false
 		if x == nil {
 			if e := endedHere[k.SEID]; e != nil && ctx.Kind == "deliver" && ctx.Dg.Intent != nil && ctx.Dg.Intent.T == "del" {
 				x = e // final reports travel in the Deletion Response
+				// ... but one a tick or the kernel produced on its own in this very step
+				// reaches the event loop before or after the session is gone
+				opt = k.Via == "multi" || k.Via == "mcast"
 			}
 		}
 		if x == nil {
@@ -303,7 +319,15 @@ func (s *Sim) checkC10(ctx *StepCtx, ureps []*URep) {
 			s.probe("c10.dropped.unknown", 1)
 			continue // URR unknown to the session: must be dropped
 		}
-		e := &exp{k: k, x: x, via: k.Via}
+		if (k.Via == "multi" || k.Via == "mcast") && ctx.Kind == "deliver" && ctx.Dg.Intent != nil {
+			// likewise for a URR this very message removes
+			for _, r := range ctx.Dg.Intent.Remove {
+				if r.Kind == "urr" && r.ID == k.URRID && ctx.Target == x {
+					opt = true
+				}
+			}
+		}
+		e := &exp{k: k, x: x, via: k.Via, opt: opt}
 		switch k.Via {
 		case "mcast":
 			e.flag = usarForCause(k.Trigger)
@@ -360,7 +384,7 @@ func (s *Sim) checkC10(ctx *StepCtx, ureps []*URep) {
 		return
 	}
 	for _, e := range exps {
-		if !e.hit {
+		if !e.hit && !e.opt {
 			s.violate("C10", "report.delivered", "report:lost:"+e.via,
 				"the data plane produced a usage report for session %#x URR %d (via %s, cause %#x) but it never reached the control plane; reports seen: %d",
 				e.x.UP, e.k.URRID, e.via, e.k.Trigger, len(ureps))
